@@ -328,6 +328,14 @@ def gen_spec(R, *, n_lf=None, hc=False, small=False, kinds=None, vrl=None, rows=
                 if first['index_like']:
                     o['attrs']['index_type'] = {'v': R.choice(ENUMS['FrameIndexType']), 'units': None, 'route': 'plain'}
                 skip = {'channels', 'index_type', 'spacing', 'direction', 'index_min', 'index_max', 'encrypted'}
+                if R.random() < 0.4:
+                    # index characteristics supplied by the user (zero included: it is a value, not "unset") are
+                    # written as given; only the ones left out are derived from the data
+                    for pyname in ('spacing', 'index_min', 'index_max'):
+                        if R.random() < 0.6:
+                            v = R.choice([0, 0.0, 0, -0.0, 1, 2.5, -3.75, 100, float(R.randrange(-1000, 1000)) / 4])
+                            o['attrs'][pyname] = {'v': v, 'units': R.choice([None, None, 'm', 's']) ,
+                                                  'route': R.choice(['plain', 'dict', 'setup', 'later'])}
             if kind == 'origin':
                 o['attrs']['file_set_number'] = {'v': R.randrange(1, 2**30) if not hc else None, 'units': None,
                                                  'route': 'plain'}
